@@ -24,10 +24,10 @@ CHECKS = {
    text="Lean theorems C12_record / C12_record_checks (record = version 1, policy bytes, twelve 0xFF, vendor and class UUID, 0xFF padding, at the given "
         "address and nowhere else; for every SHA-1 function, name, address, size), C12_policy_table, C12_merge / C12_merge_checks (merged file = area with every "
         "input byte at its address and 0xFF elsewhere, followed by the digest of the area, for every digest function), C12_reject_outside, C12_reject_overlap, "
-        "C12_merge_keeps. Tie: cmd_mpi.main run on all 12 policies x names x addresses and on merges of up to 8 records inside/border/outside/overlapping; "
+        "C12_merge_keeps; file level C12_record_file / C12_area_file (the text of the hex file, as the model of the intelhex writer produces it for the image, reads back as exactly the image). Tie: cmd_mpi.main run on all 12 policies x names x addresses and on merges of up to 8 records inside/border/outside/overlapping; "
         "hex files read back with the verifier's reader and compared with the model image; Mpi.checkRecord / checkMerge evaluated on the real files.",
    design="4 C12",
-   note=COMMON_NOTE + "Domain: size >= 48. The third-party intelhex writer is not modelled (files are read back with IHex.read); hashlib vs. Lean SHA compared through every case.",
+   note=COMMON_NOTE + "Domain: size >= 48. The third-party intelhex writer is modelled (IHexWrite / IHexImage), proved to read back, and compared with the tool's text on every run (files are also read back with IHex.read); hashlib vs. Lean SHA compared through every case.",
    technique="Lean 4 proof (model => executable spec predicate, for all hash functions) + model/implementation correspondence"),
  "C16": dict(
    text="Lean theorems C16_record (length 16+8n; little-endian fields read back as magic 0x55AA55AA, 1, partition address, size; zero cache entries; for all values below 2^32), "
@@ -69,7 +69,7 @@ CHECKS = {
    note=COMMON_NOTE + "Registry.lean (the spec side) is written from memory of the drafts/RFCs offline; vendor-specific entries are pinned to the pinned commit.",
    technique="Lean 4 proof (decide +kernel over generated tables, list lemmas) + exhaustive model/implementation/registry correspondence"),
  "C01": dict(
-   text="Lean theorems. C01_create_digests (node level, any schema): the tree create serialises holds in its authentication wrapper the declared hash of the to_cbor() bytes of "
+   text="Lean theorems. C01_rec_step / C01_rec_bytes (every level: the recursive predicate Spec.checkRec is this level's check1 and the recursive predicate of each nested envelope, so what create writes satisfies it as soon as its nested envelopes do; with C05_dep_inline the recursion is closed level by level). C01_create_digests (node level, any schema): the tree create serialises holds in its authentication wrapper the declared hash of the to_cbor() bytes of "
         "the bstr-wrapped manifest of that same tree, and every digest reference to a present severed member equals the declared hash of that member's to_cbor() bytes (loop "
         "invariant over update_severable_digests, then update_digest; any file system, hash function, description, nesting). C01_bytes (byte level, the schema extracted from the "
         "running code): whatever create writes satisfies Spec.check1 - own strict CBOR reader, digest table by COSE identifier - provided the envelope, the authentication wrapper, "
@@ -137,7 +137,7 @@ CHECKS = {
    technique="Lean 4 proof (parametric in the signature primitive) + correspondence with recorded KMS calls + cryptographic oracle"),
  "C09": dict(
    text="Lean theorems: C09_error, C09_skip (unchanged, KMS never consulted), C09_remove_old (a singly signed envelope ends with exactly the new block), C09_append, "
-        "C09_keymatch (complete 5x5 table), C09_omit_leaf, C09_key_required, C09_dependency_checked (absent / not bytes / not an envelope => refused), and by induction over "
+        "C09_keymatch (complete 5x5 table), C09_omit_leaf, C09_key_required, C09_dependency_checked (absent / not bytes / not an envelope => refused), C09_dependency_is_envelope (what is accepted is tag 107 of a map), and by induction over "
         "the configuration tree: signEnvelope_keeps, signDeps_keeps, C09_manifest_untouched (at every level the manifest and every integer-keyed member other than the "
         "wrapper is the same value, so digests recorded by parents stay valid). Tie: the 5 x 3 x 2 x key-type single-level matrix and random dependency trees to depth 3 "
         "with per-node keys / algorithms / omit-signing / actions and failing configurations, through cmd_sign.main; model vs real bytes; every level verified with that "
@@ -181,7 +181,7 @@ CHECKS = {
         "domains), C07_layout_roles_unique, C07_layout_roles_known, C07_slot_keys; general: findSub_sound + C07_class_at_offset (wherever the 32-byte component-id pattern is "
         "found, the 16 bytes at the recorded offset are the pattern's UUID - no first-occurrence caveat), C07_pattern_prefix (the +16), C07_slot (every segment of a domain "
         "image is the slot map of a stored envelope of that domain at base+offset followed by 0xFF to the slot size - and nothing else), C07_no_partial_output (a rejected "
-        "envelope means no image at all), C07_reject_duplicate. Partial: 'the stored envelope is the input stripped, manifest and wrapper byte-identical' rests on the C03 "
+        "envelope means no image at all), C07_reject_duplicate, C07_file_reads_back (file level: the text of a domain's hex file, as the model of the intelhex writer produces it for any canonical image of several blocks, reads back as exactly that image). Partial: 'the stored envelope is the input stripped, manifest and wrapper byte-identical' rests on the C03 "
         "round trip, which is not a theorem; it is checked on every stored slot. Tie: sets of 1-11 envelopes, both SoCs, random bases, kconfig, signed/unsigned, failing "
         "sets; real hex files read with the verifier's reader vs the model images; every slot decoded and checked.",
    design="4 C07",
